@@ -55,7 +55,10 @@
 
      _add(ids) = dest.add(paths, fs, oids, on_error=collect, verify=verify, check_exists=False)
        ObjectDB.add -> generic.transfer: one put_file (temp name + os.replace, atomic) per oid,
-       an exception of one upload is routed to on_error and the batch goes on;
+       an exception of one upload is routed to on_error and the batch goes on; on a file system
+       whose uploads are NOT atomic the failing upload may leave a truncated object under the
+       final name (oracle t_part, bytes t_trunc; event Partial) - it is reported failed like
+       any other failure, and verify=True removes it in the post-add check;
        HashFileDB.add, verify=True: afterwards every oid is re-hashed; a mismatching object is
        removed and (fix dd1aa82) routed to on_error.
 
@@ -68,7 +71,7 @@
    Non-determinism resolved inside the implementation is an explicit argument:
      t_dord   order in which the set dir_ids is iterated,
      t_bord   order of the uploads inside one _add batch,
-     t_fails  which uploads raise.
+     t_fails  which uploads raise (t_part: ... after writing truncated bytes t_trunc under the final name).
    Environment: t_parse (json decoding of a directory object's bytes into the listed ids;
    None = not a directory listing), t_corrupt (the bytes stored under this id in the source do
    not hash to the id - what HashFileDB.check computes with hashlib).
@@ -147,6 +150,9 @@ Record t_in := {
   t_dix : option rindex;                     (* dest_index as transfer() finds it; None = not given *)
   t_six : option rindex;                     (* src_index as transfer() finds it *)
   t_fails : oid -> bool;                     (* oracle: this upload raises *)
+  t_part : oid -> bool;                      (* oracle: ... after part of the bytes were written under
+                                                the final name (a file system with non-atomic uploads) *)
+  t_trunc : oid -> bytes;                    (* the truncated bytes such an upload leaves *)
   t_dord : list oid -> list oid;             (* oracle: iteration order of dir_ids *)
   t_bord : list oid -> list oid }.           (* oracle: upload order inside a batch *)
 
@@ -256,7 +262,8 @@ Definition compare_status (i : t_in) : N + (cmp * option rindex * option rindex)
 
 (* ---- events ---- *)
 Inductive event :=
-| Put (o : oid) (ok : bool)                 (* one upload attempt (atomic: temp name + rename) *)
+| Put (o : oid) (ok : bool)                 (* one upload attempt (ok: the whole object arrived; not ok: nothing did) *)
+| Partial (o : oid) (b : bytes)             (* a failed upload attempt that left the truncated bytes b under o *)
 | Drop (o : oid)                            (* verify=True: uploaded object failed the re-hash, removed *)
 | IndexUpdate (d : oid) (fs : list oid)     (* dest_index.update([d], fs) *)
 | SrcIndexClear.                            (* src_index.clear() *)
@@ -272,11 +279,19 @@ Definition find_tree (i : t_in) (D : oid) : option (list oid) :=
 
 (* _add *)
 Definition upload_ok (i : t_in) (o : oid) : bool := negb (t_fails i o) && has (t_src i) o.
-Definition dropped (i : t_in) (o : oid) : bool := t_verify i && upload_ok i o && t_corrupt i o.
+(* the failing upload wrote a truncated object (a missing source object is not even opened) *)
+Definition part_written (i : t_in) (o : oid) : bool := t_fails i o && t_part i o && has (t_src i) o.
+(* verify=True re-hashes whatever is under the id after the batch: a corrupt copy and a
+   truncated leftover are both removed (and reported through on_error) *)
+Definition dropped (i : t_in) (o : oid) : bool :=
+  t_verify i && ((upload_ok i o && t_corrupt i o) || part_written i o).
 Definition delivered (i : t_in) (o : oid) : bool := upload_ok i o && negb (dropped i o).
+Definition attempt (i : t_in) (o : oid) : event :=
+  if upload_ok i o then Put o true
+  else if part_written i o then Partial o (t_trunc i o) else Put o false.
 Definition add_events (i : t_in) (batch : list oid) : list event :=
   let b := t_bord i batch in
-  map (fun o => Put o (upload_ok i o)) b ++ map Drop (filter (dropped i) b).
+  map (attempt i) b ++ map Drop (filter (dropped i) b).
 Definition add_failed (i : t_in) (batch : list oid) : list oid :=
   filter (fun o => negb (delivered i o)) (t_bord i batch).
 
@@ -366,6 +381,7 @@ Record world := { w_src : store; w_dst : store; w_dix : option rindex; w_six : o
 Definition step_dst (src : store) (e : event) (d : store) : store :=
   match e with
   | Put o true => match lookup o src with Some b => put o b d | None => d end
+  | Partial o b => put o b d
   | Drop o => del o d
   | _ => d
   end.
@@ -377,7 +393,7 @@ Fixpoint apply_dst (src : store) (evs : list event) (d : store) : store :=
 
 Definition step (e : event) (w : world) : world :=
   match e with
-  | Put _ _ | Drop _ =>
+  | Put _ _ | Partial _ _ | Drop _ =>
       {| w_src := w_src w; w_dst := step_dst (w_src w) e (w_dst w); w_dix := w_dix w; w_six := w_six w |}
   | IndexUpdate d fs =>
       {| w_src := w_src w; w_dst := w_dst w; w_dix := option_map (ix_update d fs) (w_dix w); w_six := w_six w |}
@@ -406,6 +422,7 @@ Fixpoint upto_put (n : nat) (evs : list event) : list event :=
   | S m => match evs with
            | [] => []
            | Put o ok :: r => Put o ok :: upto_put m r
+           | Partial o b :: r => Partial o b :: upto_put m r
            | e :: r => e :: upto_put n r
            end
   end.
@@ -436,13 +453,14 @@ Definition enc_index (tbl : list oid) (ix : option rindex) : val :=
 Definition enc_event (tbl : list oid) (e : event) : val :=
   match e with
   | Put o ok => VL [VN 0; VN (idx tbl o 0); enc_bool ok]
+  | Partial o _ => VL [VN 4; VN (idx tbl o 0)]
   | Drop o => VL [VN 1; VN (idx tbl o 0)]
   | IndexUpdate d fs => VL [VN 2; VN (idx tbl d 0); enc_oids tbl fs]
   | SrcIndexClear => VL [VN 3]
   end.
-Definition is_put (e : event) : bool := match e with Put _ _ => true | _ => false end.
+Definition is_put (e : event) : bool := match e with Put _ _ | Partial _ _ => true | _ => false end.
 Definition is_store_event (e : event) : bool :=
-  match e with Put _ _ | Drop _ => true | _ => false end.
+  match e with Put _ _ | Partial _ _ | Drop _ => true | _ => false end.
 
 Record static := {
   s_tbl : list oid;
@@ -460,6 +478,7 @@ Record round := {
   r_dix : option rindex;
   r_six : option rindex;
   r_fails : list oid;
+  r_partial : list (oid * bytes);           (* failing uploads that leave these truncated bytes *)
   r_dirorder : list oid;                    (* observed order of the directory loop *)
   r_putorder : list oid;                    (* observed order of the upload attempts *)
   r_crash : option N }.                     (* abort right after the n-th upload attempt *)
@@ -477,6 +496,8 @@ Definition mk_in (s : static) (r : round) : t_in :=
      t_req := r_req r; t_shallow := r_shallow r; t_verify := r_verify r;
      t_dix := r_dix r; t_six := r_six r;
      t_fails := fun o => mem o (r_fails r);
+     t_part := fun o => mem o (map fst (r_partial r));
+     t_trunc := fun o => match assoc_bytes o (r_partial r) with Some b => b | None => [] end;
      t_dord := by_priority (r_dirorder r);
      t_bord := by_priority (r_putorder r) |}.
 
